@@ -105,6 +105,8 @@ def run_property(pid, rule_module, root="/repo", tier="quick", seed=0, evidence_
     try:
         ctx = Ctx(root, tier)
         rule_module.run(ctx)
+        from . import helpers
+        helpers.run(ctx, pid)
     except AnalysisError as e:
         print(f"ANALYSIS-ERROR property={pid} {e}")
         return 2
